@@ -5,7 +5,7 @@
 (* FALSE on the event; EventDrift(ev, pre) the L2 (implementation-shaped)   *)
 (* disagreements.                                                           *)
 (***************************************************************************)
-EXTENDS FermiImpl, ReshapeImpl
+EXTENDS FermiImpl
 
 Has(r, f) == f \in DOMAIN r
 Labels(x) == IF IsFermi(x) THEN x.oddpos ELSE <<>>
@@ -364,12 +364,17 @@ UnfuseEv(ev, pre) ==
 ReshapeEv(ev, pre) ==
   LET x == Ins(ev, pre, 1)
       ns == ev.args.newshape
-      en == Flag(ev.args, "back") \/ IsMergeDrop(ShapeOf(x), ns)
-  IN Judge(ev, en, LET r == Outs(ev, 1) IN
+      \* the round trips the property promises (merge adjacent axes / drop unit axes, and back) must succeed;
+      \* any other request may be refused, but whatever is RETURNED for a request of the right total size
+      \* must have the requested rank, no axis larger than requested, and the same content
+      promised == Flag(ev.args, "back") \/ IsMergeDrop(ShapeOf(x), ns)
+      wellposed == ProdSeq(ns) = ProdSeq(ShapeOf(x))
+  IN IF ev.outcome = "raise" THEN (IF promised /\ ev.entry # "suite" THEN {"C07.reshape.raises"} ELSE {})
+     ELSE IF ~(promised \/ wellposed) THEN {}
+     ELSE LET r == Outs(ev, 1) IN
        F(IsArray(r) /\ Valid(r), "C07.reshape.result_valid") \cup
        (IF IsArray(r) /\ Valid(r) /\ AllExact(r) THEN ReshapeFails(x, ns, r, "C07.reshape")
-                                                  \cup F(Labels(r) = Labels(x), "C07.reshape.labels") ELSE {}),
-       "C07.reshape")
+                                                  \cup F(Labels(r) = Labels(x), "C07.reshape.labels") ELSE {})
 
 ---------------------------------------------------------------------------
 \* relational pseudo-events: the driver names registers, the SPEC compares them
@@ -1058,6 +1063,9 @@ ImplOf(ev, pre) ==
               IF FuseEnabled(x, g) /\ x.blocks # <<>> THEN <<TRUE, IFuseCore(x, g)>> ELSE none
          [] ev.op = "unfuse" ->
               LET ax == NormAx(a.axis, n) IN IF IsFused(x.ix[ax]) THEN <<TRUE, IUnfuse(x, ax)>> ELSE none
+         [] ev.op = "reshape" ->
+              IF x.blocks # <<>> /\ Has(a, "newshape") /\ ProdSeq(a.newshape) = ProdSeq(ShapeOf(x)) /\ ReshapePlan(x, a.newshape).ok
+              THEN <<TRUE, IReshape(x, a.newshape)>> ELSE none
          [] ev.op = "neg" -> <<TRUE, INeg(x)>>
          [] ev.op \in {"smul", "rsmul", "ismul"} -> <<TRUE, IScale(x, a.k)>>
          [] ev.op \in {"add", "iadd", "sub", "isub", "mul", "imul"} ->
@@ -1084,6 +1092,9 @@ ImplOf(ev, pre) ==
          [] ev.op = "phase_global" -> <<TRUE, IPhaseGlobal(x)>>
          [] ev.op = "phase_sector" -> <<TRUE, IPhaseSector(x, a.sector)>>
          [] ev.op = "phase_sync" -> <<TRUE, IPhaseSync(x)>>
+         [] ev.op = "reshape" ->
+              IF x.blocks # <<>> /\ Has(a, "newshape") /\ ProdSeq(a.newshape) = ProdSeq(ShapeOf(x)) /\ ReshapePlan(x, a.newshape).ok
+              THEN <<TRUE, IReshape(x, a.newshape)>> ELSE none
          [] ev.op = "neg" -> <<TRUE, INeg(x)>>
          [] ev.op \in {"smul", "rsmul", "ismul"} -> <<TRUE, IScale(x, a.k)>>
          [] ev.op \in {"add", "iadd", "sub", "isub", "mul", "imul"} ->
